@@ -23,7 +23,7 @@ def _tup(x):
 
 # ------------------------------------------------------------------------------------------------ numqi.random
 reg('rand_haar_state',
-    lambda r: {'dim': r.randint(1, 6) if r.random() < 0.85 else r.choice([17, 64, 200]), 'tag_complex': r.random() < 0.6},
+    lambda r: {'dim': r.randint(1, 6) if r.random() < 0.8 else r.choice([17, 64, 200, 2 ** 21 + 3, 2 ** 22 + 1, 2 ** 22 + 1]), 'tag_complex': r.random() < 0.6},
     lambda nq, a, s: nq.random.rand_haar_state(a['dim'], tag_complex=a['tag_complex'], seed=s),
     lambda nq, a, v: mb.haar_state(a, v), branch=lambda a: f"complex={a['tag_complex']}")
 
@@ -92,7 +92,7 @@ reg('rand_bipartite_state', _g_bip,
     branch=lambda a: f"dimB={'None' if a['dimB'] is None else 'int'},k={'None' if a['k'] is None else 'int'},dm={a['return_dm']}")
 
 reg('rand_separable_dm',
-    lambda r: {'dimA': r.randint(2, 3), 'dimB': r.choice([None, 2, 3]), 'k': r.randint(1, 6), 'pure_term': r.random() < 0.5},
+    lambda r: {'dimA': r.randint(1, 3), 'dimB': r.choice([None, 1, 2, 3]), 'k': r.randint(1, 6) if r.random() < 0.8 else r.choice([17, 40, 90]), 'pure_term': r.random() < 0.5},
     lambda nq, a, s: nq.random.rand_separable_dm(a['dimA'], dimB=a['dimB'], k=a['k'], seed=s, pure_term=a['pure_term']),
     lambda nq, a, v: mb.separable_dm(a, v), weight=2, branch=lambda a: f"dimB={'None' if a['dimB'] is None else 'int'},pure={a['pure_term']}")
 
